@@ -355,7 +355,12 @@ def run(shard, seed, ctx):
             continue
         for k, spec in enumerate(pool):
             case = {"cell": list(cell), "doc": spec}
-            raised, fails = run_cell(cell, spec)
+            try:
+                with env.watchdog():
+                    raised, fails = run_cell(cell, spec)
+            except env.CaseHang:
+                raised, fails = None, [failure("hang.no_return", "saving did not return within %d s"
+                                               % env.HANG_SECONDS)]
             nt = raised is not None and cell[4] == "present"
             classes = ["route:" + cell[0], "fault:" + cell[1], "format:%s/%s" % (cell[2], cell[3]),
                        "entry:" + cell[5], "outcome:" + ("raised" if raised is not None else "written")]
